@@ -17,7 +17,11 @@
      ([junk]), so results cannot depend on them; any other load is a FAULT;
    - the only store is to the result slot whose address the wrapper put in R8;
      a store anywhere else is a FAULT;
-   - flags: ZF, CF and the signed "less" of the last compare; BSF leaves its
+   - flags: ZF, CF and the signed "less", each known or undefined: compares,
+     TEST and AND define all three, BSF and VPTEST only ZF, the arithmetic,
+     OR, shift and POPCNT instructions leave them undefined (the real CPU
+     defines some of them; the kernels never branch on those), and a
+     conditional jump that reads an undefined flag is a FAULT; BSF leaves its
      destination unchanged on a zero source (as Intel documents for current
      CPUs; the kernels never use it then).  *)
 From Coq Require Import List ZArith Lia Bool.
@@ -79,7 +83,8 @@ Inductive instr :=
   | VBROADCASTB (src dst : nat)
   | VZEROUPPER.
 
-Record flags := { zf : bool; cf : bool; lt : bool }.   (* lt: signed less of the last compare *)
+(* each flag is known (Some) or left undefined by the last instruction that touched it (None); lt: signed less *)
+Record flags := { zf : option bool; cf : option bool; lt : option bool }.
 
 Record st := {
   gAX : Z;
@@ -184,13 +189,20 @@ Definition signed64 (x : Z) : Z := if x <? two63 then x else x - two64.
 Definition signed32 (x : Z) : Z := if x <? 2147483648 then x else x - two32.
 
 Definition cmp_flags (a b : Z) (sg : Z -> Z) : flags :=
-  {| zf := a =? b; cf := a <? b; lt := sg a <? sg b |}.
+  {| zf := Some (a =? b); cf := Some (a <? b); lt := Some (sg a <? sg b) |}.
+(* after BSF / VPTEST only ZF is relied upon; after the arithmetic and shift instructions nothing is *)
+Definition zflag (z : bool) : flags := {| zf := Some z; cf := None; lt := None |}.
+Definition noflags : flags := {| zf := None; cf := None; lt := None |}.
+(* AND / TEST: ZF and SF of the result, CF = OF = 0 *)
+Definition logic_flags (r sign : Z) : flags := {| zf := Some (r =? 0); cf := Some false; lt := Some (sign <=? r) |}.
+Definition o2 (op : bool -> bool -> bool) (a b : option bool) : option bool :=
+  match a, b with Some x, Some y => Some (op x y) | _, _ => None end.
 
-Definition holds (f : flags) (c : cond) : bool :=
+Definition holds (f : flags) (c : cond) : option bool :=
   match c with
-  | cE => zf f | cNE => negb (zf f)
-  | cLT => lt f | cLE => lt f || zf f | cGE => negb (lt f) | cGT => negb (lt f || zf f)
-  | cA => negb (cf f || zf f) | cAE => negb (cf f) | cB => cf f | cBE => cf f || zf f
+  | cE => zf f | cNE => option_map negb (zf f)
+  | cLT => lt f | cLE => o2 orb (lt f) (zf f) | cGE => option_map negb (lt f) | cGT => option_map negb (o2 orb (lt f) (zf f))
+  | cA => option_map negb (o2 orb (cf f) (zf f)) | cAE => option_map negb (cf f) | cB => cf f | cBE => o2 orb (cf f) (zf f)
   end.
 
 (* ---- byte vectors ---- *)
@@ -249,6 +261,9 @@ Definition val (st0 : st) (o : opnd) : option Z :=
 
 Definition wr64 (st0 : st) (r : reg) (v : Z) (pc : nat) : outcome :=
   if in64 v then Running (S pc) (set_reg st0 r v) else Fault.
+(* the same for an instruction that also leaves the flags in a state the model does not track *)
+Definition wr64f (st0 : st) (r : reg) (v : Z) (pc : nat) : outcome :=
+  if in64 v then Running (S pc) (set_fl (set_reg st0 r v) noflags) else Fault.
 
 Definition step (pc : nat) (i : instr) (st0 : st) : outcome :=
   let next s' := Running (S pc) s' in
@@ -265,23 +280,23 @@ Definition step (pc : nat) (i : instr) (st0 : st) : outcome :=
   | MOVB src d => match val st0 src with Some v => next (set_reg st0 d (rg st0 d - rg st0 d mod 256 + v mod 256)) | None => Fault end
   | LEAQ m d => wr64 st0 d (ea st0 m) pc
   | LEAL m d => next (set_reg st0 d (ea st0 m mod two32))
-  | ADDQ src d => match val st0 src with Some v => wr64 st0 d (rg st0 d + v) pc | None => Fault end
-  | SUBQ src d => match val st0 src with Some v => wr64 st0 d (rg st0 d - v) pc | None => Fault end
-  | ADDL src d => match val st0 src with Some v => next (set_reg st0 d ((rg st0 d + v) mod two32)) | None => Fault end
-  | ANDQ src d => match val st0 src with Some v => next (set_reg st0 d (Z.land (rg st0 d) v)) | None => Fault end
-  | ORQ src d => match val st0 src with Some v => next (set_reg st0 d (Z.lor (rg st0 d) v)) | None => Fault end
-  | ORL src d => match val st0 src with Some v => next (set_reg st0 d (Z.lor (rg st0 d) v mod two32)) | None => Fault end
+  | ADDQ src d => match val st0 src with Some v => wr64f st0 d (rg st0 d + v) pc | None => Fault end
+  | SUBQ src d => match val st0 src with Some v => wr64f st0 d (rg st0 d - v) pc | None => Fault end
+  | ADDL src d => match val st0 src with Some v => next (set_fl (set_reg st0 d ((rg st0 d + v) mod two32)) noflags) | None => Fault end
+  | ANDQ src d => match val st0 src with Some v => next (set_fl (set_reg st0 d (Z.land (rg st0 d) v)) (logic_flags (Z.land (rg st0 d) v) two63)) | None => Fault end
+  | ORQ src d => match val st0 src with Some v => next (set_fl (set_reg st0 d (Z.lor (rg st0 d) v)) noflags) | None => Fault end
+  | ORL src d => match val st0 src with Some v => next (set_fl (set_reg st0 d (Z.lor (rg st0 d) v mod two32)) noflags) | None => Fault end
   | SALQ c d => match val st0 c with
-                | Some n => next (set_reg st0 d (rg st0 d * 2 ^ (n mod 64) mod two64))
+                | Some n => next (set_fl (set_reg st0 d (rg st0 d * 2 ^ (n mod 64) mod two64)) noflags)
                 | None => Fault end
   | SARQ c d => match val st0 c with
-                | Some n => next (set_reg st0 d ((signed64 (rg st0 d) / 2 ^ (n mod 64)) mod two64))
+                | Some n => next (set_fl (set_reg st0 d ((signed64 (rg st0 d) / 2 ^ (n mod 64)) mod two64)) noflags)
                 | None => Fault end
   | SHLL c d => match val st0 c with
-                | Some n => next (set_reg st0 d ((rg st0 d mod two32) * 2 ^ (n mod 32) mod two32))
+                | Some n => next (set_fl (set_reg st0 d ((rg st0 d mod two32) * 2 ^ (n mod 32) mod two32)) noflags)
                 | None => Fault end
   | SHRL c d => match val st0 c with
-                | Some n => next (set_reg st0 d ((rg st0 d mod two32) / 2 ^ (n mod 32)))
+                | Some n => next (set_fl (set_reg st0 d ((rg st0 d mod two32) / 2 ^ (n mod 32))) noflags)
                 | None => Fault end
   | CMPQ a b => match val st0 a, val st0 b with
                 | Some x, Some y => next (set_fl st0 (cmp_flags x y signed64)) | _, _ => Fault end
@@ -291,22 +306,22 @@ Definition step (pc : nat) (i : instr) (st0 : st) : outcome :=
                 | Some x, Some y => next (set_fl st0 (cmp_flags (x mod 256) (y mod 256) (fun v => if v <? 128 then v else v - 256)))
                 | _, _ => Fault end
   | TESTQ a b => match val st0 a, val st0 b with
-                 | Some x, Some y => next (set_fl st0 {| zf := Z.land x y =? 0; cf := false; lt := two63 <=? Z.land x y |})
+                 | Some x, Some y => next (set_fl st0 (logic_flags (Z.land x y) two63))
                  | _, _ => Fault end
   | TESTW a b => match val st0 a, val st0 b with
-                 | Some x, Some y => next (set_fl st0 {| zf := Z.land x y mod 65536 =? 0; cf := false; lt := 32768 <=? Z.land x y mod 65536 |})
+                 | Some x, Some y => next (set_fl st0 (logic_flags (Z.land x y mod 65536) 32768))
                  | _, _ => Fault end
   | BSFL src d =>
       let x := rg st0 src mod two32 in
-      if x =? 0 then next (set_fl st0 {| zf := true; cf := cf (fl st0); lt := lt (fl st0) |})
-      else next (set_fl (set_reg st0 d (bsf x)) {| zf := false; cf := cf (fl st0); lt := lt (fl st0) |})
-  | POPCNTL src d => next (set_reg st0 d (popcnt (rg st0 src mod two32)))
-  | POPCNTQ src d => next (set_reg st0 d (popcnt (rg st0 src)))
+      if x =? 0 then next (set_fl st0 (zflag true))
+      else next (set_fl (set_reg st0 d (bsf x)) (zflag false))
+  | POPCNTL src d => next (set_fl (set_reg st0 d (popcnt (rg st0 src mod two32))) noflags)
+  | POPCNTQ src d => next (set_fl (set_reg st0 d (popcnt (rg st0 src))) noflags)
   | CMPHASAVX2 => next (set_fl st0 (cmp_flags (if has_avx2 then 1 else 0) 1 (fun v => v)))
   | CMPHASPOPCNT => next (set_fl st0 (cmp_flags (if has_popcnt then 1 else 0) 1 (fun v => v)))
   | JMP t => Running t st0
   | TAILGO => Delegated
-  | JCC c t => if holds (fl st0) c then Running t st0 else Running (S pc) st0
+  | JCC c t => match holds (fl st0) c with Some true => Running t st0 | Some false => Running (S pc) st0 | None => Fault end
   | RET => Done (res st0)
   | NOP => next st0
   | MOVD src d => next (set_vr st0 d (vput 16 (le_bytes4 (rg st0 src mod two32) ++ repeat 0 12) (vr st0 d)))
@@ -320,7 +335,7 @@ Definition step (pc : nat) (i : instr) (st0 : st) : outcome :=
   | VOR w a b d => next (set_vr st0 d (vput w (map2 Z.lor (vr st0 a) (vr st0 b)) (vr st0 d)))
   | VCMPEQB w a b d => next (set_vr st0 d (vput w (map2 (fun x y => if x =? y then 255 else 0) (vr st0 a) (vr st0 b)) (vr st0 d)))
   | VMOVMSKB w src d => next (set_reg st0 d (movmsk (vlow w (vr st0 src))))
-  | VPTEST a b => next (set_fl st0 {| zf := forallb (fun x => x =? 0) (map2 Z.land (vr st0 a) (vr st0 b)); cf := false; lt := false |})
+  | VPTEST a b => next (set_fl st0 (zflag (forallb (fun x => x =? 0) (map2 Z.land (vr st0 a) (vr st0 b)))))
   | VBROADCASTB src d => next (set_vr st0 d (repeat (hd 0 (vr st0 src)) 32))
   | VZEROUPPER => next st0          (* upper halves are dead afterwards: the kernels return *)
   end.
@@ -341,6 +356,6 @@ Fixpoint run (prog : list instr) (fuel : nat) (pc : nat) (st0 : st) : outcome :=
 
 (* the state at the entry of a wrapper: registers hold arbitrary values *)
 Definition init (r0 : reg -> Z) : st :=
-  {| gAX := r0 AX; gBX := r0 BX; gCX := r0 CX; gDX := r0 DX; gSI := r0 SI; gDI := r0 DI; gR8 := r0 R8; gR9 := r0 R9; gR10 := r0 R10; gR11 := r0 R11; gR12 := r0 R12; gR13 := r0 R13; gR14 := r0 R14; gR15 := r0 R15; v0 := repeat 0 32%nat; v1 := repeat 0 32%nat; v2 := repeat 0 32%nat; v3 := repeat 0 32%nat; v4 := repeat 0 32%nat; v5 := repeat 0 32%nat; v6 := repeat 0 32%nat; v7 := repeat 0 32%nat; fl := {| zf := false; cf := false; lt := false |}; res := None |}.
+  {| gAX := r0 AX; gBX := r0 BX; gCX := r0 CX; gDX := r0 DX; gSI := r0 SI; gDI := r0 DI; gR8 := r0 R8; gR9 := r0 R9; gR10 := r0 R10; gR11 := r0 R11; gR12 := r0 R12; gR13 := r0 R13; gR14 := r0 R14; gR15 := r0 R15; v0 := repeat 0 32%nat; v1 := repeat 0 32%nat; v2 := repeat 0 32%nat; v3 := repeat 0 32%nat; v4 := repeat 0 32%nat; v5 := repeat 0 32%nat; v6 := repeat 0 32%nat; v7 := repeat 0 32%nat; fl := noflags; res := None |}.
 
 End Machine.
